@@ -541,6 +541,11 @@ func TestVerif_C16_Split(t *testing.T) {
 	if rp := vkit.ReplayRequest(); rp != nil {
 		var c c16SplitCase
 		remarshal(rp["case"], &c)
+		if c.Shape == "" {
+			R.Note("replay file describes a case of the other variant (readers): nothing to do in this one")
+			R.Case(false, "")
+			return
+		}
 		for _, p := range preps {
 			if p.sh.Name == c.Shape {
 				res := runOne(p, c.Size)
